@@ -701,6 +701,25 @@ def c06(ck):
                 s.add("free", 1)
             ck.add(Exec("load-%d-%d" % (bi, n), s.lines))
             n += 1
+    # what is stored is the seed as it is NOW: loaded (or decoded, or created), then encrypted once, twice, three times,
+    # each time stored and loaded again
+    for n in range(10 if quick else 150):
+        s = Script()
+        s.make_seed(0, rand_secret(rng), rng.below(1024), rng.choice([0, 5, 16, 21]), rng, enable=7)
+        s.add("store", 0, 1)
+        s.add("load", 1, 1)
+        s.add("encode", 0, "en", 0, 1)
+        s.add("decodex", 1, 0, "en", 2)
+        pw = s.string(rng.choice([b"pw", b"", "pässwörd".encode()]))
+        for h in (1, 2, 0):
+            for k in range(1 + rng.below(3)):
+                s.add("env", "mask=" + hx(biased_mask(rng, n + k)))
+                s.add("crypt", h, pw)
+                s.add("store", h, 2)
+                s.add("load", 2, 3)
+                s.add("store", 3, 3)
+                s.add("free", 3)
+        ck.add(Exec("store-after-crypt-%d" % n, s.lines))
     # spec -> code: TLC-generated images for every feature value (valid and with the check value off by one)
     vecs = spec_vectors(ck)
     ck.extra["tlc_generated_vectors"] = len(vecs)
@@ -1116,13 +1135,15 @@ def c12(ck):
     quick = ck.tier == "quick"
     ck.model("Theorems.tla", "Theorems_crypt.cfg")
     pool = json.load(open(os.path.join(codec.GOLDEN, "passwords.json")))["pool"]
-    pws = []
+    pws = [b"a" * 30, b"x" * 542, b"x" * 543, b"y" * 544, b"z" * 700, ("ü" * 100).encode(),
+           # long non-ASCII passwords whose decomposed form still fits the buffer: nothing is cut off before normalisation
+           ("密" * 70).encode(), ("é" * 91).encode(), ("パスワード" * 12).encode(), b"ascii-prefix-" * 10 + "ñ".encode() * 60, ("가" * 60).encode()]
+    # the password reaches the KDF as given (NFKD changes nothing in ASCII): capitals, digits, punctuation, spaces
+    pws += [b"Correct Horse Battery Staple", b"PIN-2024-XYZ", b"  lead and trail  ", b"Tab\tand\nnewline", b"hunter2\n", b"hunter2\r\n", b"\n", b"hunter2", b" ", b"\x7f\x01", b"MiXeD cAsE 0123456789 !\"#$%&'()*+,-./:;<=>?@[\\]^_`{|}~"]
+    # (the special ones first: the quick tier gets through the first thirty)
     for p in pool:
         pws.append(bytes(p["nfc"]))
         pws.append(bytes(p["nfd"]))
-    pws += [b"a" * 30, b"x" * 542, b"x" * 543, b"y" * 544, b"z" * 700, ("ü" * 100).encode()]
-    # the password reaches the KDF as given (NFKD changes nothing in ASCII): capitals, digits, punctuation, spaces
-    pws += [b"Correct Horse Battery Staple", b"PIN-2024-XYZ", b"  lead and trail  ", b"Tab\tand\nnewline", b"hunter2\n", b"hunter2\r\n", b"\n", b"hunter2", b" ", b"\x7f\x01", b"MiXeD cAsE 0123456789 !\"#$%&'()*+,-./:;<=>?@[\\]^_`{|}~"]
     k = 0
     for n in range(30 if quick else 5000):
         s = Script()
@@ -2474,7 +2495,10 @@ def exit_path_scripts(rng, tag):
         idx = rand_idx(rng)
         good = codec.phrase("en", idx)
         cases = [b"", b" ", good + b" extra", b" ".join(good.split(b" ")[:15]), good.replace(b" ", b"  ", 1),
-                 good[:-1] + b"zz", b"xxx " * 15 + b"xxx", codec.phrase("jp", rand_idx(rng))[:-3]]
+                 good[:-1] + b"zz", b"xxx " * 15 + b"xxx", codec.phrase("jp", rand_idx(rng))[:-3],
+                 # malformed UTF-8 after plain text (a Latin-1 byte, a lone continuation byte, a cut sequence): the
+                 # normaliser fails, the ASCII head has already been copied
+                 good + b" \xe9", good[:40] + b"\x80" + good[40:], good + b"\xe3\x81", codec.phrase("es", rand_idx(rng)) + b"\xff"]
         for c in cases:
             r = s.string(c)
             s.add("decode", r, 0, 1)
